@@ -607,6 +607,15 @@ func c14Run(c *Ctx, n int) {
 			addCase(S(relay) + ", " + S("") + ", None, " + VC("Ok", VL([]string{VS(out), VC("None")})))
 			continue
 		}
+		// an endpoint of the common class (C14_endpoint_kept) is kept BYTE FOR BYTE: the URL is the configured text before its
+		// '?', then "?" and the query — judged on the configured string itself, not on net/url's normal form of it
+		if c14CommonEndpoint(iu.raw) {
+			c.Count("idp-url-common-class:kept-verbatim-checked")
+			base, _, _ := strings.Cut(iu.raw, "?")
+			if !strings.HasPrefix(out, base+"?") {
+				c.Violate("spec", "c14:endpoint-not-verbatim", fmt.Sprintf("URL does not start with the configured endpoint %q followed by '?'", base), replay)
+			}
+		}
 		rawq := out[len(prefix)+1 : len(out)-len(frag)]
 		pairs := c14Split(rawq)
 		reqVals, relVals, algVals, sigVals := c14Raw(pairs, "SAMLRequest"), c14Raw(pairs, "RelayState"), c14Raw(pairs, "SigAlg"), c14Raw(pairs, "Signature")
